@@ -48,6 +48,108 @@ def check_regex(rep, ix):
                required=f'language of /{spec}/ included', module=m)
 
 
+def _charset(items):
+    """set of code points 0..255 matched by a parsed character class"""
+    import re._constants as sc
+    neg = False
+    out = set()
+    for op, av in items:
+        if op is sc.NEGATE:
+            neg = True
+        elif op is sc.LITERAL:
+            out.add(av)
+        elif op is sc.RANGE:
+            out |= set(range(av[0], av[1] + 1))
+        elif op is sc.CATEGORY:
+            if av is sc.CATEGORY_SPACE:
+                out |= {9, 10, 11, 12, 13, 32}
+            elif av is sc.CATEGORY_DIGIT:
+                out |= set(range(48, 58))
+            else:
+                raise ValueError(f'category {av}')
+        else:
+            raise ValueError(f'class item {op}')
+    return (set(range(256)) - out) if neg else out
+
+
+def _group_class(pattern, group):
+    """the character set repeated inside capture group `group` when the group is (CLASS+) ; None if of another shape"""
+    import re._parser as sp
+    import re._constants as sc
+
+    def find(seq):
+        for op, av in seq:
+            if op is sc.SUBPATTERN and av[0] == group:
+                inner = list(av[3])
+                if len(inner) == 1 and inner[0][0] in (sc.MAX_REPEAT, sc.MIN_REPEAT) and inner[0][1][0] == 1:
+                    body = list(inner[0][1][2])
+                    if len(body) == 1:
+                        bop, bav = body[0]
+                        if bop is sc.IN:
+                            return _charset(bav)
+                        if bop is sc.NOT_LITERAL:
+                            return set(range(256)) - {bav}
+                        if bop is sc.LITERAL:
+                            return {bav}
+                        if bop is sc.ANY:
+                            return set(range(256)) - {10}
+                return 'other'
+            if op in (sc.MAX_REPEAT, sc.MIN_REPEAT):
+                r = find(av[2])
+                if r is not None:
+                    return r
+            elif op is sc.SUBPATTERN:
+                r = find(av[3])
+                if r is not None:
+                    return r
+            elif op is sc.BRANCH:
+                for alt in av[1]:
+                    r = find(alt)
+                    if r is not None:
+                        return r
+        return None
+    try:
+        return find(list(sp.parse(pattern)))
+    except Exception:
+        return None
+
+
+def check_field_regex(rep, ix):
+    """MNEM.UNITS VALUE : DESCRIPTION -- the mnemonic is the run of characters other than blank, dot and colon; the units
+    are the run of characters other than blank and colon that follows the dot immediately (units may contain dots)."""
+    m = ix.module(M)
+    for name, group, excluded, what in (('RE_LINE_FIELD_0', 1, {' ', '.', ':'}, 'mnemonic: every character except blank, dot and colon'),
+                                        ('RE_LINE_FIELD_1', 1, {' ', ':'}, 'units: every character except blank and colon (a dot inside units is kept)')):
+        rv = _fold_regex(ix, name)
+        cs = _group_class(rv.pattern, group) if isinstance(rv, RegexVal) else None
+        want = set(range(256)) - {ord(c) for c in excluded}
+        ok = isinstance(cs, set) and cs == want
+        diff = ''
+        if isinstance(cs, set) and not ok:
+            diff = 'wrongly excluded: ' + repr(''.join(chr(c) for c in sorted(want - cs) if 32 <= c < 127)) + ' wrongly allowed: ' + repr(''.join(chr(c) for c in sorted(cs - want) if 32 <= c < 127))
+        rep.ob('R-C09-REGEX', f'{M}:{name}', f'group {group} is a run of the {what}', ok, found=(rv.pattern if isinstance(rv, RegexVal) else 'not a regex') + ' ' + diff,
+               required='([^' + ''.join(sorted(excluded)) + ']+)', module=m)
+    rv = _fold_regex(ix, 'RE_LINE_FIELD_1')
+    cs2 = _group_class(rv.pattern, 2) if isinstance(rv, RegexVal) else None
+    rep.ob('R-C09-REGEX', f'{M}:RE_LINE_FIELD_1', 'group 2 (the value) takes the rest of the field', isinstance(cs2, set) and cs2 >= set(range(32, 127)), module=m)
+    # exact masking of the null value
+    AV = 'TotalDepth.common.AbsentValue'
+    am = ix.module(AV)
+    f = ix.get_func(AV, 'mask_absent_values')
+    stores = [n for n in walk_no_nested(f) if isinstance(n, ast.Assign) and any(_n(t).endswith('.mask') for t in n.targets)]
+    arr = f.args.args[0].arg
+    ok = len(stores) >= 1 and all(isinstance(n.value, ast.Compare) and len(n.value.ops) == 1 and isinstance(n.value.ops[0], ast.Eq) and
+                                   {_n(n.value.left), _n(n.value.comparators[0])} == {arr, 'mask_value'} for n in stores)
+    rep.ob('R-C09-NULL', f'{AV}:mask_absent_values', 'a value is masked exactly when it equals the null value (no tolerance: values near the null are data)', ok,
+           found='; '.join(ast.unparse(n) for n in stores)[:160], required=f'mask = ({arr} == mask_value)', node=f, module=am)
+    for const, want in (('ABSENT_VALUE_FLOAT', -999.25), ('ABSENT_VALUE_INT', -999)):
+        try:
+            v = ix.fold_name(AV, const)
+        except Exception:
+            v = None
+        rep.ob('R-C09-NULL', f'{AV}:{const}', f'default null value {want}', v == want, found=str(v), module=am)
+
+
 def _fold_regex(ix, name):
     m = ix.module(M)
     exprs = m.assigns.get(name)
@@ -265,13 +367,14 @@ def check_wrap(rep, ix):
 
 def run(rep, ix, tier):
     check_regex(rep, ix)
+    check_field_regex(rep, ix)
     check_choke(rep, ix)
     check_fields(rep, ix)
     check_kinds(rep, ix)
     check_wrap(rep, ix)
-    rep.floor('R-C09-REGEX', 2)
+    rep.floor('R-C09-REGEX', 5)
     rep.floor('R-C09-CHOKE', 9)
     rep.floor('R-C09-FIELDS', 6)
     rep.floor('R-C09-KINDS', 3)
-    rep.floor('R-C09-NULL', 3)
+    rep.floor('R-C09-NULL', 6)
     rep.floor('R-C09-WRAP', 12)
